@@ -54,6 +54,12 @@ func c14Gen(tier string, seed int64) []core.Case {
 		id := fmt.Sprintf("keysizes/%dbit", b)
 		cs = append(cs, core.Case{ID: id, Class: id, Kind: "keysizes", Cost: 1, P: core.P{"bits": b, "n": tierN(tier, 8, 40)}})
 	}
+	// very small keys: the prime generator's sieve walks upwards from a random start, and only at these sizes is the
+	// top of the range within reach of that walk (a candidate one bit too long must not come out)
+	for b := 20; b <= 34; b += 2 {
+		id := fmt.Sprintf("keysizes/%dbit", b)
+		cs = append(cs, core.Case{ID: id, Class: id, Kind: "keysizes", Cost: 2, P: core.P{"bits": b, "n": tierN(tier, 150, 1500)}})
+	}
 	for _, b := range []int{260, 276} {
 		id := fmt.Sprintf("keysizes/%dbit", b)
 		cs = append(cs, core.Case{ID: id, Class: id, Kind: "keysizes", Cost: 4, P: core.P{"bits": b, "n": tierN(tier, 4, 12)}})
